@@ -36,10 +36,30 @@
 (*    values are p(x_obs, t_obs); at coinciding nodes/times this is the     *)
 (*    restriction.                                                          *)
 (*                                                                         *)
+(* kind "sseq" / "tseq": ONE PDE object (SteadyStateLinearPDE /            *)
+(*    TimeDependentLinearPDE) driven through a SEQUENCE of public calls -   *)
+(*    a state machine over <<grid_sol, grid_obs, time_obs, cached equality  *)
+(*    flag, assembled parameter, last solution>> with the actions           *)
+(*    SetGridObs (incl. None = reset to grid_sol), SetGridSol, SetTimeObs,  *)
+(*    Assemble(th), Solve, Observe and Forward(th) (= PDEModel.forward =    *)
+(*    Assemble . Solve . Observe on the same object) and the history        *)
+(*    variable `hist` (one entry per call with the abstract state and the   *)
+(*    exact value the call has to return).  Depth bounded.  Observe is      *)
+(*    implementation shaped (it branches on the CACHED flag `eq`); the      *)
+(*    invariant SeqObserveCurrent requires every observation to be the      *)
+(*    restriction / interpolant for the CURRENT grid_sol, grid_obs and      *)
+(*    time_obs (computed without the flag), SeqFlagFresh that the cached    *)
+(*    decision agrees with the current grids after every call.  The grids   *)
+(*    have 3 (steady) / 4 x 4 (time) nodes, where the quadratic / bicubic   *)
+(*    interpolant the code documents IS the Lagrange polynomial through all *)
+(*    nodes - expected values are exact rationals for ANY solution.         *)
+(*                                                                         *)
 (* Named deviations (off in the deciding configurations):                  *)
 (*    OperatorAtOldTime : backward Euler assembles at t_idx instead of      *)
 (*                        t_idx+1  -> the discrete equation is violated     *)
 (*    DtFromNextInterval: dt = t_idx+2 - t_idx+1                            *)
+(*    DevStaleGridFlag  : the grid_obs setter does not refresh the cached   *)
+(*                        equality flag -> SeqObserveCurrent is violated    *)
 (***************************************************************************)
 EXTENDS MatQ, FiniteSets, TLC, Json
 
@@ -48,15 +68,20 @@ CONSTANTS Level,               \* 1 quick, 2 thorough (more parameters / grids /
           Emit,
           UBound,              \* time: a level whose numerators / denominators exceed this is not stepped further (32-bit TLC)
           OperatorAtOldTime,
-          DtFromNextInterval
+          DtFromNextInterval,
+          SeqDepth,            \* sseq / tseq: number of calls after construct - assemble - solve
+          SeqSetters,          \* sseq / tseq: at most this many setter calls in one behaviour
+          DevStaleGridFlag     \* deviation: "the grid_obs setter does not refresh the cached equality flag"
 
 VARIABLES pb,      \* the problem
           ph,      \* "new" / "run"
           st,      \* time: [idx, u]; otherwise <<>>
           traj,    \* time: stored levels u_1 .. u_idx  (sequence of vectors)
-          calls    \* time: times at which the form has been assembled, in order
+          calls,   \* time: times at which the form has been assembled, in order
+          obj,     \* sseq / tseq: abstract state of the ONE PDE object (see SeqNew); otherwise <<>>
+          hist     \* sseq / tseq: history variable - one entry per call with the value it has to return
 
-vars == <<pb, ph, st, traj, calls>>
+vars == <<pb, ph, st, traj, calls, obj, hist>>
 Run(kind) == ph = "run" /\ pb.kind = kind
 
 Two == R(2)
@@ -223,21 +248,24 @@ AssembleTime(p, idx) == IF p.method = "forward_euler" \/ OperatorAtOldTime THEN 
 DtOf(p, idx) == IF DtFromNextInterval /\ idx + 2 <= Len(p.T) THEN QSub(p.T[idx + 2], p.T[idx + 1])
                 ELSE QSub(p.T[idx + 1], p.T[idx])
 
+\* one Euler step from u with operator and source assembled at time ta and step length dt
+EulerStep(m, th, method, ta, dt, u) ==
+    LET A == ATime(m, ta)
+        f == FTime(m, th, ta)
+        n == m.n
+    IN IF method = "forward_euler"
+       THEN F(QVAdd(QMV(QMAdd(MId(n), QMScale(dt, A)), u), QVScale(dt, f)))
+       ELSE F(QSolve(QMSub(MId(n), QMScale(dt, A)), QVAdd(u, QVScale(dt, f))))
+
 Step ==
     /\ Run("time")
     /\ st.status = "step"
     /\ LET ta == AssembleTime(pb, st.idx)
-           dt == DtOf(pb, st.idx)
-           A  == ATime(pb.m, ta)
-           f  == FTime(pb.m, pb.th, ta)
-           n  == pb.m.n
-           u1 == IF pb.method = "forward_euler"
-                 THEN F(QVAdd(QMV(QMAdd(MId(n), QMScale(dt, A)), st.u), QVScale(dt, f)))
-                 ELSE F(QSolve(QMSub(MId(n), QMScale(dt, A)), QVAdd(st.u, QVScale(dt, f))))
+           u1 == EulerStep(pb.m, pb.th, pb.method, ta, DtOf(pb, st.idx), st.u)
        IN /\ st' = [idx |-> st.idx + 1, u |-> u1, status |-> StatusT(pb, st.idx + 1, u1)]
           /\ traj' = Append(traj, u1)
           /\ calls' = Append(calls, ta)
-    /\ UNCHANGED <<pb, ph>>
+    /\ UNCHANGED <<pb, ph, obj, hist>>
 
 \* ---- invariants ------------------------------------------------------------
 \* every stored level satisfies the documented discrete equation with the operator/source of ITS step
@@ -358,20 +386,249 @@ EmitSobs ==
                                     data |-> DataS(pb.c), fwd |-> ApplyMap(pb.omap, ExpectS(pb))]) \o " @@END")
 
 (***************************************************************************)
+(* sequences of calls on ONE PDE object (kinds "sseq", "tseq")             *)
+(*                                                                         *)
+(* The object is constructed (grid_sol = X0, grid_obs = go0 or None,       *)
+(* time_obs = to0), assembled for th0 and solved; from there every         *)
+(* behaviour of at most SeqDepth calls is explored.  All solution grids    *)
+(* have the same number of nodes (the form does not depend on the grid, so *)
+(* the nodal vector keeps its meaning), 3 nodes for the steady class and   *)
+(* 4 nodes x 4 time levels for the time-dependent class: the quadratic     *)
+(* spline through 3 nodes / the bicubic spline through 4 x 4 nodes has no  *)
+(* interior knot and is THE interpolation polynomial, so the documented    *)
+(* interpolation is exact Lagrange interpolation for every solution.       *)
+(***************************************************************************)
+SeqKinds == {"sseq", "tseq"}
+IsSeq == ph = "run" /\ pb.kind \in SeqKinds
+
+SeqMatS == CHOOSE m \in SteadyMats : m.n = 3 /\ m.A0 = Pois3
+SeqMatT == CHOOSE m \in TimeMats : m.n = 4
+SeqT    == << Zero, Q(1, 2), One, Two >>                       \* non-uniform time levels of the tseq object
+
+\* solution grids (same length; X1 shares the first and last node - and the length - with X0)
+SeqGridSolS == [X0 |-> << Zero, Q(1, 2), Two >>, X1 |-> << Zero, One, Two >>]
+SeqGridSolT == [X0 |-> << Zero, Q(1, 2), One, Two >>, X1 |-> << Zero, Q(1, 2), Q(3, 2), Two >>]
+\* observation grids: the two solution grids, coinciding nodes of both, points between the nodes
+SeqGridObsS == [X0 |-> SeqGridSolS.X0, X1 |-> SeqGridSolS.X1, sub |-> << Zero, Two >>,
+                off |-> << Q(1, 4), One, Q(3, 2), Q(7, 4) >>]
+SeqGridObsT == [X0 |-> SeqGridSolT.X0, X1 |-> SeqGridSolT.X1, sub |-> << Q(1, 2), Two >>,
+                off |-> << Q(1, 4), One, Q(7, 4) >>]
+\* observation times: final / all / coinciding subset with the final time / between the levels / one between / one coinciding
+SeqTimeObs  == [final |-> << Two >>, all |-> SeqT, sub |-> << Q(1, 2), Two >>, shift |-> << Q(3, 4), Q(3, 2) >>,
+                one |-> << Q(3, 2) >>, mid |-> << One >>]
+
+GridSolOf(p, k) == IF p.kind = "sseq" THEN SeqGridSolS[k] ELSE SeqGridSolT[k]
+GridObsOf(p, k) == IF p.kind = "sseq" THEN SeqGridObsS[k] ELSE SeqGridObsT[k]
+GridSolNames == {"X0", "X1"}
+GridObsNames == IF Level < 2 THEN {"X0", "X1", "off"} ELSE {"X0", "X1", "sub", "off"}
+TimeObsNames == IF Level < 2 THEN {"final", "all", "one"} ELSE {"final", "all", "sub", "shift", "one", "mid"}
+
+\* initial objects <<grid_obs, time_obs, observation map>> (quick: grids equal from the start / different from the start)
+SeqInitsS == { <<"none", "none", "id">>, <<"X1", "none", "sq">> }
+             \cup (IF Level < 2 THEN {} ELSE { <<"off", "none", "first">>, <<"sub", "none", "id">>, <<"none", "none", "sq">> })
+SeqInitsT == { <<"none", "final", "id">>, <<"off", "all", "sq">> }
+             \cup (IF Level < 2 THEN {} ELSE { <<"X1", "final", "sq">>, <<"none", "one", "id">>, <<"off", "final", "id">> })
+\* via = "pde"  : the calls are made on the PDE object (assemble / solve / observe);
+\* via = "model": the object is wrapped in a PDEModel and evaluated through PDEModel.forward, the setters act on
+\*                model.pde between the forward evaluations
+SeqProblems ==
+    { [kind |-> "sseq", via |-> v, m |-> SeqMatS, th0 |-> <<1, -1>>, th1 |-> <<2, 1>>, go0 |-> c[1], to0 |-> c[2], omap |-> c[3]] :
+        v \in {"pde", "model"}, c \in SeqInitsS }
+    \cup
+    { [kind |-> "tseq", via |-> v, m |-> SeqMatT, T |-> SeqT, method |-> "forward_euler", th0 |-> <<1, -1>>, th1 |-> <<0, 2>>,
+       go0 |-> c[1], to0 |-> c[2], omap |-> c[3]] :
+        v \in {"pde", "model"}, c \in SeqInitsT }
+
+\* ---- Solve ---------------------------------------------------------------
+\* time levels 1..k of the documented recurrence (the same EulerStep as the action Step of kind "time")
+RECURSIVE Levels(_, _, _)
+Levels(p, th, k) ==
+    IF k = 1 THEN << ICForm(p.m, th, p.T, p.T[1]) >>
+    ELSE LET prev == Levels(p, th, k - 1)
+             ta   == IF p.method = "forward_euler" THEN p.T[k - 1] ELSE p.T[k]
+         IN Append(prev, EulerStep(p.m, th, p.method, ta, QSub(p.T[k], p.T[k - 1]), prev[k - 1]))
+\* steady: the nodal vector u; time: the sequence of levels u_1 .. u_nt (sol[j][i] = level j, node i)
+SeqSolution(p, th) == IF p.kind = "sseq" THEN QSolve(AOf(p.m, th), FOf(p.m, th)) ELSE F(Levels(p, th, Len(p.T)))
+
+\* ---- Observe -------------------------------------------------------------
+\* tensor-product Lagrange interpolation (= Lag2) of the levels sol[b][a] (level b, node a) on X x T at all points G x TO,
+\* with the basis values computed once per observation node / time
+InterpT(X, T, sol, G, TO) ==
+    LET BX == F([i \in 1..Len(G) |-> [a \in 1..Len(X) |-> LagBasis(X, a, G[i])]])
+        BT == F([j \in 1..Len(TO) |-> [b \in 1..Len(T) |-> LagBasis(T, b, TO[j])]])
+        \* first in space: W[i][b] = value at observation node i on level b
+        W  == F([i \in 1..Len(G) |-> [b \in 1..Len(T) |-> QSumSeq([a \in 1..Len(X) |-> QMul(BX[i][a], sol[b][a])])]])
+    IN F([i \in 1..Len(G) |-> [j \in 1..Len(TO) |-> QSumSeq([b \in 1..Len(T) |-> QMul(BT[j][b], W[i][b])])]])
+\* (1) what the property demands, from the CURRENT grid_sol / grid_obs / time_obs only: the stored value at a
+\*     coinciding node (and time), the value of the interpolation polynomial elsewhere
+ObsNow(p, o) ==
+    IF p.kind = "sseq"
+    THEN F([i \in 1..Len(o.go) |-> IF IndexIn(o.gs, o.go[i]) # 0 THEN o.sol[IndexIn(o.gs, o.go[i])]
+                                   ELSE Lagrange(o.gs, o.sol, o.go[i])])
+    ELSE LET V == InterpT(o.gs, p.T, o.sol, o.go, o.to)
+         IN F([i \in 1..Len(o.go) |-> [j \in 1..Len(o.to) |->
+                  IF IndexIn(o.gs, o.go[i]) # 0 /\ IndexIn(p.T, o.to[j]) # 0
+                  THEN o.sol[IndexIn(p.T, o.to[j])][IndexIn(o.gs, o.go[i])]
+                  ELSE V[i][j]]])
+\* (2) what the call does (implementation shaped): it branches on the CACHED equality flag
+ObserveBy(p, o) ==
+    IF p.kind = "sseq"
+    THEN IF o.eq THEN o.sol ELSE F([i \in 1..Len(o.go) |-> Lagrange(o.gs, o.sol, o.go[i])])
+    ELSE IF o.eq /\ o.to = << p.T[Len(p.T)] >>
+         THEN F([i \in 1..p.m.n |-> << o.sol[Len(p.T)][i] >>])                                \* last level, no interpolation
+         ELSE InterpT(o.gs, p.T, o.sol, o.go, o.to)
+\* restriction is due everywhere (the harness compares exactly there)
+ExactNow(p, o) == o.go = o.gs /\ (p.kind = "tseq" => o.to = << p.T[Len(p.T)] >>)
+\* steady: the observation map is applied here; time: by the replayer (squares of these rationals exceed 32 bits)
+MappedObs(p, v) == IF p.kind = "sseq" THEN ApplyMap(p.omap, v) ELSE <<>>
+
+\* ---- the object ------------------------------------------------------------
+SeqNew(p) ==
+    LET gs == GridSolOf(p, "X0")
+        go == IF p.go0 = "none" THEN gs ELSE GridObsOf(p, p.go0)
+    IN [gs |-> gs, go |-> go,
+        godef |-> p.go0 = "none",                  \* grid_obs was given as None (it IS grid_sol)
+        to |-> IF p.kind = "tseq" THEN SeqTimeObs[p.to0] ELSE <<>>,
+        eq |-> go = gs,                            \* cached decision "no interpolation in space"
+        par |-> p.th0, solpar |-> p.th0, sol |-> SeqSolution(p, p.th0)]
+
+Setters == {"set_grid_obs", "set_grid_sol", "set_time_obs"}
+CountOf(S) == Cardinality({i \in 1..Len(hist) : hist[i].a \in S})
+LastIs(S)  == hist # <<>> /\ hist[Len(hist)].a \in S
+\* Solve follows Assemble immediately
+SeqCan     == IsSeq /\ Len(hist) < SeqDepth /\ ~LastIs({"assemble"})
+\* history entry: the call, its argument, the value it sets / returns, the abstract state after it
+Entry(a, arg, val, obs, o) ==
+    [a |-> a, arg |-> arg, val |-> val, obs |-> obs, fwd |-> IF obs = <<>> THEN <<>> ELSE MappedObs(pb, obs),
+     exact |-> ExactNow(pb, o), gs |-> o.gs, go |-> o.go, godef |-> o.godef, to |-> o.to, par |-> o.par]
+SeqFrame == UNCHANGED <<pb, ph, st, traj, calls>>
+
+\* pde.grid_obs = G   (None: the solution grid)
+SetGridObs(k) ==
+    /\ SeqCan /\ CountOf(Setters) < SeqSetters
+    /\ LET g == IF k = "none" THEN obj.gs ELSE GridObsOf(pb, k)
+           o == [obj EXCEPT !.go = g, !.godef = (k = "none"),
+                            !.eq = IF DevStaleGridFlag THEN obj.eq ELSE (g = obj.gs)]
+       IN /\ (g # obj.go \/ (obj.godef /\ k # "none"))                  \* not a call that changes nothing
+          /\ obj' = o
+          /\ hist' = Append(hist, Entry("set_grid_obs", k, g, <<>>, o))
+    /\ SeqFrame
+
+\* pde.grid_sol = X.  Only with an EXPLICIT observation grid: whether a grid_obs given as None follows a later
+\* change of grid_sol is not documented, so the specification is silent there.
+SetGridSol(k) ==
+    /\ SeqCan /\ CountOf(Setters) < SeqSetters
+    /\ ~obj.godef
+    /\ GridSolOf(pb, k) # obj.gs
+    /\ LET o == [obj EXCEPT !.gs = GridSolOf(pb, k), !.eq = (obj.go = GridSolOf(pb, k))]
+       IN /\ obj' = o
+          /\ hist' = Append(hist, Entry("set_grid_sol", k, o.gs, <<>>, o))
+    /\ SeqFrame
+
+\* time_obs = times (time-dependent class)
+SetTimeObs(k) ==
+    /\ SeqCan /\ CountOf(Setters) < SeqSetters
+    /\ pb.kind = "tseq"
+    /\ SeqTimeObs[k] # obj.to
+    /\ LET o == [obj EXCEPT !.to = SeqTimeObs[k]]
+       IN /\ obj' = o
+          /\ hist' = Append(hist, Entry("set_time_obs", k, o.to, <<>>, o))
+    /\ SeqFrame
+
+\* pde.assemble(th) for another parameter (the last solution stays the one of the previous parameter until Solve)
+Assemble(th) ==
+    /\ SeqCan /\ pb.via = "pde" /\ CountOf({"assemble"}) < Level
+    /\ th \in {pb.th0, pb.th1} /\ th # obj.par
+    /\ LET o == [obj EXCEPT !.par = th]
+       IN /\ obj' = o
+          /\ hist' = Append(hist, Entry("assemble", "", IF pb.kind = "sseq" THEN [th |-> th, A |-> AOf(pb.m, th), f |-> FOf(pb.m, th)]
+                                                        ELSE [th |-> th], <<>>, o))
+    /\ SeqFrame
+
+\* pde.solve() after a new assembly
+Solve ==
+    /\ IsSeq /\ Len(hist) < SeqDepth /\ pb.via = "pde"
+    /\ obj.par # obj.solpar
+    /\ LET o == [obj EXCEPT !.sol = SeqSolution(pb, obj.par), !.solpar = obj.par]
+       IN /\ obj' = o
+          /\ hist' = Append(hist, Entry("solve", "", o.sol, <<>>, o))
+    /\ SeqFrame
+
+\* pde.observe(last solution)
+Observe ==
+    /\ SeqCan /\ pb.via = "pde"
+    /\ ~LastIs({"observe"})
+    /\ hist' = Append(hist, Entry("observe", "", <<>>, ObserveBy(pb, obj), obj))
+    /\ UNCHANGED obj
+    /\ SeqFrame
+
+\* PDEModel(pde).forward(th) = Observe(Solve(Assemble(th))) on the same object
+Forward(th) ==
+    /\ SeqCan /\ pb.via = "model" /\ CountOf({"forward"}) < 2
+    /\ th \in {pb.th0, pb.th1}
+    /\ (~LastIs(Setters) => th # obj.solpar)                              \* not a call that changes nothing
+    /\ LET o == [obj EXCEPT !.par = th, !.solpar = th, !.sol = SeqSolution(pb, th)]
+       IN /\ obj' = o
+          /\ hist' = Append(hist, Entry("forward", "", [th |-> th, sol |-> o.sol], ObserveBy(pb, o), o))
+    /\ SeqFrame
+
+SeqThetas == { <<1, -1>>, <<2, 1>>, <<0, 2>> }        \* the parameters th0, th1 of the two classes
+
+\* ---- invariants ------------------------------------------------------------
+\* every Observe / Forward returns the observation for the CURRENT grids and times
+SeqObserveCurrent ==
+    (IsSeq /\ LastIs({"observe", "forward"})) => hist[Len(hist)].obs = ObsNow(pb, obj)
+\* the cached decision is the one for the current grids after every call
+SeqFlagFresh == IsSeq => obj.eq = (obj.go = obj.gs)
+\* the last solution solves the discrete problem of the parameter it was assembled for; after Solve / Forward that is
+\* the parameter assembled last
+SeqSolutionCurrent ==
+    (IsSeq /\ (hist = <<>> \/ LastIs({"solve", "forward"}))) =>
+        /\ obj.solpar = obj.par
+        /\ IF pb.kind = "sseq" THEN QMV(AOf(pb.m, obj.solpar), obj.sol) = FOf(pb.m, obj.solpar)
+           ELSE /\ obj.sol[1] = QVAdd(IV(pb.m.c0), QMV(IM(pb.m.U0), IV(obj.solpar)))
+                /\ \A i \in 1..(Len(pb.T) - 1) :
+                      LET dt == QSub(pb.T[i + 1], pb.T[i])
+                          tl == IF pb.method = "forward_euler" THEN pb.T[i] ELSE pb.T[i + 1]
+                          ua == IF pb.method = "forward_euler" THEN obj.sol[i] ELSE obj.sol[i + 1]
+                      IN QVSub(obj.sol[i + 1], obj.sol[i]) = QVScale(dt, QVAdd(QMV(ATime(pb.m, tl), ua), FTime(pb.m, obj.solpar, tl)))
+\* the bounds of the behaviours
+SeqBounds == IsSeq => Len(hist) <= SeqDepth /\ CountOf(Setters) <= SeqSetters
+
+EmitSeq ==
+    (Emit /\ IsSeq /\ LastIs({"observe", "forward"})) =>
+        PrintT("@@CASE " \o ToJson(
+            [kind |-> pb.kind, via |-> pb.via, m |-> pb.m, T |-> IF pb.kind = "tseq" THEN pb.T ELSE <<>>,
+             method |-> IF pb.kind = "tseq" THEN pb.method ELSE "", th0 |-> pb.th0, th1 |-> pb.th1,
+             go0 |-> pb.go0, to0 |-> pb.to0, omap |-> pb.omap,
+             new |-> LET o == SeqNew(pb) IN [gs |-> o.gs, go |-> o.go, to |-> o.to, sol |-> o.sol],
+             hist |-> hist]) \o " @@END")
+
+(***************************************************************************)
 AllProblems ==
     (IF "steady" \in Kinds THEN {p \in SteadyProblems : SteadyValid(p) /\ Solvable(AOf(p.m, p.th))} ELSE {})
     \cup (IF "time" \in Kinds THEN {p \in TimeProblems : TimeValid(p)} ELSE {})
     \cup (IF "tobs" \in Kinds THEN TobsCases ELSE {})
     \cup (IF "sobs" \in Kinds THEN SobsCases ELSE {})
+    \cup {p \in SeqProblems : p.kind \in Kinds}
 
-Init == pb \in AllProblems /\ ph = "new" /\ st = <<>> /\ traj = <<>> /\ calls = <<>>
+Init == pb \in AllProblems /\ ph = "new" /\ st = <<>> /\ traj = <<>> /\ calls = <<>> /\ obj = <<>> /\ hist = <<>>
 
 Start ==
     /\ ph = "new"
     /\ ph' = "run"
     /\ IF pb.kind = "time" THEN TimeInit(pb) ELSE UNCHANGED <<st, traj, calls>>
-    /\ UNCHANGED pb
+    /\ IF pb.kind \in SeqKinds THEN obj' = SeqNew(pb) ELSE UNCHANGED obj      \* construct - assemble(th0) - solve
+    /\ UNCHANGED <<pb, hist>>
 
-Next == Start \/ Step
+Next == \/ Start
+        \/ Step
+        \/ \E k \in GridObsNames \cup {"none"} : SetGridObs(k)
+        \/ \E k \in GridSolNames : SetGridSol(k)
+        \/ \E k \in TimeObsNames : SetTimeObs(k)
+        \/ \E th \in SeqThetas : Assemble(th)
+        \/ Solve
+        \/ Observe
+        \/ \E th \in SeqThetas : Forward(th)
 Spec == Init /\ [][Next]_vars
 =============================================================================
